@@ -65,7 +65,7 @@ namespace fastscapelib
             if ((*p_jobs)[i] != nullptr)
             {
                 FASTSCAPELIB_VERIF_SCHED("run_tasks.before_publish", i);
-                m_has_job[i].store(1, std::memory_order_relaxed);
+                m_has_job[i].store(1, std::memory_order_release);
                 FASTSCAPELIB_VERIF_SCHED("run_tasks.after_publish", i);
             }
     }
@@ -119,7 +119,7 @@ namespace fastscapelib
     {
         for (std::size_t i = 0; i < m_size; ++i)
         {
-            if (m_has_job[i].load(std::memory_order_relaxed))
+            if (m_has_job[i].load(std::memory_order_acquire))
                 return false;
         }
         return true;
@@ -187,12 +187,12 @@ namespace fastscapelib
                     {
                         while (!m_stopped.load(std::memory_order_relaxed))
                         {
-                            if (m_has_job[i].load(std::memory_order_relaxed))
+                            if (m_has_job[i].load(std::memory_order_acquire))
                             {
                                 FASTSCAPELIB_VERIF_SCHED("worker.saw_job", i);
                                 (*p_jobs)[i]();
                                 FASTSCAPELIB_VERIF_SCHED("worker.job_done.before_clear", i);
-                                m_has_job[i].store(0, std::memory_order_relaxed);
+                                m_has_job[i].store(0, std::memory_order_release);
                                 FASTSCAPELIB_VERIF_SCHED("worker.job_done.after_clear", i);
                             }
                         }
